@@ -1,3 +1,245 @@
-import Babylon.Core.Proto
-/-! Line-protocol driver for property C10 (stub). -/
-def main : IO Unit := Babylon.Core.runLines (fun (s : Unit) _ => (s, "bad-op")) ()
+import Babylon.Core.Trace
+import Babylon.GC.Model
+/-! Lock-step replay driver for property C10 (GarbageCollector, event-level model).
+stdin: runs `RUN <seed> cap=<n> gc=<tid> …` / VRT trace lines / `END`; stdout: `ok <n>` | `diverge <why>`.
+
+Every trace line that is an action of the model (harness events, the atomic operations on the
+epoch version / epoch slots / queue indices / queue slot versions, the collector's sleeps, thread
+exit / join) is mapped to a label and must be enabled in the model (`GC.step`), with the values the
+implementation read or wrote equal to the model's.  Lines that belong to the lower layers' internals
+(version polling loads, fences, slot releases, the slot loads of the epoch scan — which are folded
+into the low water mark the scan returns) are consumed without a model step. -/
+open Babylon.Core Babylon.GC
+
+structure RState where
+  c : Cfg
+  s : State
+  gc : Nat                          -- tid of the collector thread
+  tcall : List (Nat × Nat) := []    -- thread → reclaimer id of its running retire call
+  ttick : List Nat := []            -- threads between `ev tick` and the rmw
+  tenter : List (Nat × Nat) := []   -- thread → slot it is entering
+  tleave : List (Nat × Nat) := []   -- thread → slot it is leaving
+  stopper : Option Nat := none
+  scanMin : Lwm := none
+  sleeps : Nat := 0
+
+def hdrNat (hdr : List String) (key : String) (dflt : Nat) : Nat :=
+  (hdr.filterMap (fun h => if h.startsWith (key ++ "=") then (h.drop (key.length + 1)).toNat? else none)).head?.getD dflt
+
+def initR (hdr : List String) : RState :=
+  { c := { cap := hdrNat hdr "cap" 1 }, s := State.init, gc := hdrNat hdr "gc" 1 }
+
+def lookup (l : List (Nat × Nat)) (t : Nat) : Option Nat := (l.find? (·.1 = t)).map (·.2)
+def erase (l : List (Nat × Nat)) (t : Nat) : List (Nat × Nat) := l.filter (·.1 ≠ t)
+
+def showCall : Call → String
+  | c => reprStr c
+
+def lwmOfVal (v : Nat) : Lwm := if v = Babylon.Gen.GC.slotIdle then none else some v
+def showLwm : Lwm → String
+  | none => "MAX"
+  | some v => toString v
+
+/-- apply a label, or explain why the model refuses it -/
+def app (r : RState) (l : Lbl) (why : String) : Except String RState :=
+  match step r.c r.s l with
+  | some s' => .ok { r with s := s' }
+  | none => .error s!"{why}: action {reprStr l} is not enabled in the model (collector at {reprStr r.s.cpc}, index {r.s.index} of {r.s.tasks.length} tasks, running {r.s.running}, queue [{r.s.popIdx},{r.s.pushIdx}), stop {reprStr r.s.stop})"
+
+/-- bring the collector forward over its unobservable steps so that it can take `want`:
+an empty `try_deal_n_continuously` (no index store), the end of the epoch scan, the end of a pass that
+does not sleep -/
+def syncTo (r : RState) (want : String) : Except String RState := do
+  let mut r := r
+  -- empty pops
+  if want = "scanBegin" then
+    match r.s.cpc with
+    | .pop1 => r ← app r (.pop 0) "sync"
+    | .pop2 _ => r ← app r (.pop 0) "sync"
+    | _ => pure ()
+  -- end of scan
+  if want = "reclaim" ∨ want = "passEnd" ∨ want = "exit" ∨ want = "consumeBegin" ∨ want = "scanBegin" then
+    if r.s.cpc = .scan then
+      r ← app r (.scanEnd r.scanMin) s!"low water mark {showLwm r.scanMin} returned by the scan"
+  -- pass end without sleep
+  if want = "exit" ∨ want = "consumeBegin" ∨ want = "scanBegin" then
+    match r.s.cpc with
+    | .reclaim _ _ =>
+      if (passSleep r.c r.s).isSome then
+        throw s!"the model's pass ends with usleep({(passSleep r.c r.s).getD 0}) but the implementation went on without sleeping"
+      r ← app r .passEnd "sync"
+    | _ => pure ()
+  return r
+
+def slotOfLoc (pre : String) (loc : String) : Option Nat :=
+  if loc.startsWith pre then (loc.drop pre.length).toNat? else none
+
+def stepObs (r : RState) (o : Obs) : Except String RState := do
+  let t := o.tid
+  let isGc := t = r.gc
+  match o.kind, o.args with
+  -- ------------------------------------------------------------ harness events
+  | "ev", ["retire_begin", id] =>
+    let some id := id.toNat? | throw "bad id"
+    let r ← app r (.callRetire id) "retire_begin"
+    return { r with tcall := (t, id) :: erase r.tcall t }
+  | "ev", ["retire_at_begin", id, e] =>
+    let some id := id.toNat? | throw "bad id"
+    let some e := e.toNat? | throw "bad epoch"
+    let r ← app r (.callRetireAt id e) "retire_at_begin"
+    return { r with tcall := (t, id) :: erase r.tcall t }
+  | "ev", ["retire_end", id] =>
+    let some id := id.toNat? | throw "bad id"
+    match r.s.calls id with
+    | .done _ _ => return { r with tcall := erase r.tcall t }
+    | c => throw s!"retire({id}) returned but the model call is at {showCall c}"
+  | "ev", ["tick"] => return { r with ttick := t :: r.ttick }
+  | "ev", ["region_enter", sl] =>
+    let some sl := sl.toNat? | throw "bad slot"
+    let mut r := r
+    for _ in [0:(sl + 1 - r.s.nslots)] do
+      r ← app r .newSlot "new slot"
+    return { r with tenter := (t, sl) :: erase r.tenter t }
+  | "ev", ["region_open", sl] =>
+    let some sl := sl.toNat? | throw "bad slot"
+    match r.s.slots sl with
+    | .pinned _ _ => return { r with tenter := erase r.tenter t }
+    | _ => throw s!"lock() returned but slot {sl} is not pinned in the model"
+  | "ev", ["region_close", sl] =>
+    let some sl := sl.toNat? | throw "bad slot"
+    match r.s.slots sl with
+    | .pinned _ _ => return { r with tleave := (t, sl) :: erase r.tleave t }
+    | _ => throw s!"unlock() of slot {sl} which is not pinned in the model"
+  | "ev", ["stop_begin"] =>
+    let r ← app r .callStop "stop_begin"
+    return { r with stopper := some t }
+  | "ev", ["stop_end"] =>
+    if r.s.stop = .returned then return r
+    else throw s!"stop() returned but the model's stop is at {reprStr r.s.stop}"
+  | "ev", ["reclaim", id] =>
+    let some id := id.toNat? | throw "bad id"
+    if ¬ isGc then throw s!"reclaimer {id} invoked by thread {t}, not by the collector thread"
+    let r ← syncTo r "reclaim"
+    app r (.reclaim id) s!"reclaimer {id} invoked"
+  | "ev", _ => return r                      -- oracle verdicts, statistics
+  -- ------------------------------------------------------------ epoch version
+  | "rmw", ["add", "ep.ver", "sc", old, "1"] =>
+    let some old := old.toNat? | throw "bad value"
+    if old ≠ r.s.gver then throw s!"tick read global version {old}, model has {r.s.gver}"
+    match lookup r.tcall t with
+    | some id =>
+      if r.s.calls id = .tick then app r (.tick id) "tick" else throw s!"tick inside retire({id}) which is at {showCall (r.s.calls id)}"
+    | none =>
+      if r.ttick.contains t then
+        let r ← app r .clientTick "tick"
+        return { r with ttick := r.ttick.filter (· ≠ t) }
+      else throw "unexpected tick"
+  | "ld", ["ep.ver", "rlx", v] =>
+    let some v := v.toNat? | throw "bad value"
+    match lookup r.tenter t with
+    | some sl =>
+      if v ≠ r.s.gver then throw s!"lock read global version {v}, model has {r.s.gver}"
+      app r (.enterRead sl) "lock"
+    | none => throw "global version read outside lock()"
+  | "st", [loc, ord, v] =>
+    let some v := v.toNat? | throw "bad value"
+    match slotOfLoc "ep.s" loc, slotOfLoc "q.f" loc with
+    | some sl, _ =>
+      if v = Babylon.Gen.GC.slotIdle then
+        if lookup r.tleave t ≠ some sl then throw s!"slot {sl} released by a thread that is not closing it"
+        if ord ≠ "rel" then throw s!"unlock stores with order {ord}"
+        let r ← app r (.leave sl) "unlock"
+        return { r with tleave := erase r.tleave t }
+      else
+        if lookup r.tenter t ≠ some sl then throw s!"slot {sl} written by a thread that is not entering it"
+        match r.s.slots sl with
+        | .entering g =>
+          if g ≠ v then throw s!"slot {sl} := {v}, model read {g}"
+          app r (.enterPin sl) "lock"
+        | _ => throw s!"slot {sl} written but the model slot is not entering"
+    | none, some i =>
+      if isGc then return r                    -- consumer releases the slot (after the model's pop)
+      else
+        -- a producer publishes: ticket k lives in slot k % cap with version 2 * (k / cap) + 1
+        let chk (k : Nat) : Except String Unit :=
+          if i ≠ k % r.c.cap then throw s!"ticket {k} published in slot {i}, expected {k % r.c.cap}"
+          else if v ≠ (2 * (k / r.c.cap) + 1) % 65536 then throw s!"ticket {k} published with version {v}"
+          else if ord ≠ "rel" then throw s!"publish with order {ord}"
+          else pure ()
+        let stopK : Option Nat := match r.s.stop with | .publish k => some k | _ => none
+        if r.stopper = some t ∧ stopK.isSome then
+          let k := stopK.getD 0
+          chk k
+          app r .stopPublish "stop marker published"
+        else
+          match lookup r.tcall t with
+          | some id =>
+            match r.s.calls id with
+            | .publish _ k => do chk k; app r (.publish id) s!"retire({id}) published"
+            | c => throw s!"queue slot published by retire({id}) which is at {showCall c}"
+          | none => throw "queue slot published outside retire / stop"
+    | none, none =>
+      if loc = "q.pop" then
+        if ¬ isGc then throw "pop index written by a non-collector thread"
+        if v < r.s.popIdx then throw s!"pop index moved backwards to {v}"
+        app r (.pop (v - r.s.popIdx)) s!"pop index := {v}"
+      else throw s!"store to unknown location {loc}"
+  | "rmw", ["add", "q.push", "rlx", old, "1"] =>
+    let some old := old.toNat? | throw "bad value"
+    if old ≠ r.s.pushIdx then throw s!"push ticket {old}, model has {r.s.pushIdx}"
+    if r.stopper = some t ∧ r.s.stop = .reserve then app r .stopReserve "stop marker ticket"
+    else
+      match lookup r.tcall t with
+      | some id => app r (.reserve id) s!"retire({id}) ticket"
+      | none => throw "push ticket taken outside retire / stop"
+  | "ld", [loc, _, v] =>
+    let some v := v.toNat? | throw "bad value"
+    if loc = "q.pop" then
+      if ¬ isGc then throw "pop index read by a non-collector thread"
+      if v ≠ r.s.popIdx then throw s!"pop index read {v}, model has {r.s.popIdx}"
+      let r ← syncTo r "consumeBegin"
+      app r .consumeBegin "try_pop_n"
+    else if loc = "ep.idend" then
+      if ¬ isGc then return r
+      let r ← syncTo r "scanBegin"
+      let r ← app r .scanBegin "low_water_mark"
+      return { r with scanMin := none }
+    else
+      match slotOfLoc "ep.s" loc with
+      | some _ =>
+        if isGc then
+          return { r with scanMin := match lwmOfVal v with | none => r.scanMin | some p => minLwm r.scanMin p }
+        else return r
+      | none => return r                     -- version polling on queue slots
+  | "sleep", [ns] =>
+    let some ns := ns.toNat? | throw "bad value"
+    if isGc then
+      let r ← syncTo r "passEnd"
+      match passSleep r.c r.s with
+      | some us =>
+        if us * 1000 ≠ ns then throw s!"collector sleeps {ns} ns, model back-off is {us} us"
+        app r .passEnd "usleep"
+      | none => throw s!"collector sleeps {ns} ns where the model's pass does not sleep (at {reprStr r.s.cpc})"
+    else return { r with sleeps := r.sleeps + 1 }
+  | "exit", [] =>
+    if isGc then
+      let r ← syncTo r "exit"
+      app r .exit "collector thread exits"
+    else return r
+  | "join", [ch] =>
+    if ch.toNat? = some r.gc then app r .stopJoin "join" else return r
+  | "fence", _ => return r
+  | "spawn", _ => return r
+  | "race", _ => throw "payload race reported by the monitor"
+  | "VERDICT", _ => return r
+  | k, _ => throw s!"unknown trace line kind {k}"
+
+/-- run-time sanity of the replayed path (the theorems prove these for every path) -/
+def finalR (r : RState) : Except String Unit :=
+  let ids := r.s.log.map (·.id)
+  if ¬ ids.Nodup then .error "a reclaimer was invoked twice in the model path"
+  else if r.s.stop = .returned ∧ r.s.cpc ≠ .done then .error "stop returned before the collector finished"
+  else .ok ()
+
+def main : IO Unit := do
+  replayLoop (← IO.getStdin) initR stepObs finalR
